@@ -517,7 +517,10 @@ func (s *controlledSelector) HandleBindingRequest(message *stun.Message, local, 
 			// candidate pair state to Failed, and set the checklist state to
 			// Failed.
 			pair.nominateOnBindingSuccess = true
-			pair.nominationValueOnBindingSuccess = nominationValue
+			if nominationValue != nil {
+				// A later plain USE-CANDIDATE on the same pair does not erase the value.
+				pair.nominationValueOnBindingSuccess = nominationValue
+			}
 		}
 	}
 
